@@ -235,7 +235,7 @@ def replay(chk, scenarios, label, trace_sample=100, extra_env=None, fault_of=Non
             wd = os.path.join(root, sid)
             os.makedirs(wd, exist_ok=True)
             case, expected, ai_beh = concretize(
-                scn, sid, wd, fault_of=fault_of, lua_err=(lua_err_of(i) if lua_err_of else "err"),
+                scn, sid, wd, fault_of=((lambda b_, _i=i: fault_of(b_ + _i)) if fault_of else None), lua_err=(lua_err_of(i) if lua_err_of else "err"),
                 delays=(delays_of(i, scn) if delays_of else None), body=(body_of(i, scn) if body_of else None),
                 sevmix=(i + 1 if sevmix else 0))
             fake.behaviour.update({k: v for k, v in ai_beh.items() if v.get("fault") != "refuse"})
